@@ -34,6 +34,7 @@ type World struct {
 	axiomsDone map[*Unit]map[string]bool
 	allFns     map[*ssa.Function]bool
 	lints      []*LintInfo
+	reach      map[*ssa.Function]bool
 	timeCache  map[*ssa.Global]time.Time
 }
 
